@@ -68,6 +68,10 @@ func (fr *Frame) resolveCallee(cc *ssa.CallCommon) *calleeInfo {
 				ci.dynamic = false
 			} else {
 				ci.keys = append(ci.keys, dynamicKey(fr.fn, cc.Value))
+				// fallback: contract by named function type (e.g. context.CancelFunc)
+				if n, ok := types.Unalias(cc.Value.Type()).(*types.Named); ok && n.Obj().Pkg() != nil {
+					ci.keys = append(ci.keys, n.Obj().Pkg().Path()+"."+n.Obj().Name())
+				}
 			}
 		}
 	}
